@@ -1,0 +1,28 @@
+//go:build verif
+
+// Contracts for the protocol-version gate (property C10). Comment-only; see
+// verif_contracts_shm.go for the conventions.
+
+package vgirpc
+
+// parseSemver: a canonical MAJOR.MINOR.PATCH string yields the numeric value of major and
+// minor; it is refused when it is not canonical or when major/minor do not fit an int (such a
+// client can never equal a server version, which always fits). patch takes part in no decision.
+//
+//@ pure func fitsInt(n int) bool = n <= 9223372036854775807
+//@ func parseSemver
+//@   property C10
+//@   nopanic
+//@   ensures [accept] (err == nil) <==> (canonicalSemver(value) && fitsInt(decval(semverPart(value,1))) && fitsInt(decval(semverPart(value,2))))
+//@   ensures [values] err == nil ==> major == decval(semverPart(value,1)) && minor == decval(semverPart(value,2))
+//@   ensures [patch] err == nil && fitsInt(decval(semverPart(value,3))) ==> patch == decval(semverPart(value,3))
+
+// checkProtocolVersion: admitted iff present, canonical and same major.minor (numerically).
+//
+//@ pure func serverMajor(s *Server) int = s.protocolVersionParts[0]
+//@ pure func serverMinor(s *Server) int = s.protocolVersionParts[1]
+//@ func (*Server).checkProtocolVersion
+//@   property C10
+//@   requires s != nil
+//@   ensures [admit] (result == nil) <==> (present && canonicalSemver(clientVersion) &&
+//@       decval(semverPart(clientVersion,1)) == serverMajor(s) && decval(semverPart(clientVersion,2)) == serverMinor(s))
